@@ -1392,7 +1392,22 @@ def rule_A3(F, R, ex=None):
                     want = 'VEC[NT:parse_sub_formula@*]' if fname.endswith('formula_list') else 'VEC[NT:parse_variable_name@*]'
                     d = desc(v)
                     ok = d in (want, 'VEC[]')
-                    if not ok and d.startswith('VEC[') and d.endswith(']'):
+                    if ok and v is not None and v[0] == 'vec':
+                        # ... and every member that is parsed is collected: each call of the member parser on this path (outside the loop, or in
+                        # one turn of it) is the source of one element
+                        member_fn = PARSER + want[7:-3]
+                        items_ = env.get(v[1], [])
+                        top_ = sum(1 for ev in evs if ev[0] == 'nt' and ev[1] == member_fn)
+                        single_ = set(x[1] for x in items_ if x and x[0] == 'ev')
+                        looped_ = set((x[2], x[1][1]) for x in items_ if x and x[0] == 'looped' and x[1] and x[1][0] == 'ev')
+                        if top_ != len(single_): ok = False; d = d + ' (a member parsed outside the loop is not in the list)'
+                        for ev in evs:
+                            if ev[0] != 'loop': continue
+                            for p_ in tuple(ev[1]) + tuple(ev[2]):
+                                for i_, e_ in enumerate(p_):
+                                    if e_[0] == 'nt' and e_[1] == member_fn and (p_, i_) not in looped_:
+                                        ok = False; d = d + ' (a member parsed in the loop is not pushed)'
+                    if not ok and d.startswith('VEC[') and d.endswith(']') and '(' not in d:
                         # members collected before the loop as well as in it (`first; while next_if_eq(Comma) { more }`): every element is a parsed
                         # member, and every member parsed outside a loop is in the list
                         import re as _re
